@@ -1103,7 +1103,12 @@ func (f *Frugal) validateIncludes() error {
 }
 
 func (f *Frugal) validateConstants() error {
+	names := make(map[string]struct{})
 	for _, constant := range f.Constants {
+		if _, ok := names[constant.Name]; ok {
+			return fmt.Errorf("Duplicate constant name %s", constant.Name)
+		}
+		names[constant.Name] = struct{}{}
 		if err := f.validateConstant(constant); err != nil {
 			return err
 		}
